@@ -1,9 +1,10 @@
 /-
 Line-protocol driver for the request-scheduling model (C14).
 Input line : {"groups":[g,…], "events":[ev,…]}        (a fresh actor per line)
-  ev = {"e":"arrive","g":nat,"r":nat} | {"e":"complete","g":nat,"o":"ok"|"exc"} | {"e":"snap"}
-Output line: {"starts":[[g,r],…]      all `start` outputs, in order
-              "snaps":[{"processing":[r|null per group],"pending":[r|null per group]},…]   one per "snap"
+  ev = {"e":"arrive","g":nat,"r":nat,"p":int,"adj":bool} | {"e":"complete","g":nat,"o":"ok"|"exc"} | {"e":"snap"}
+       (a request = identity `r` of the Request object + its fields: power `p` in W, adjust_power `adj`)
+Output line: {"starts":[[g,r,p,adj],…]      all `start` outputs (whole requests), in order
+              "snaps":[{"processing":[r|null per group],"pending":[[r,p,adj]|null per group]},…]   one per "snap"
               "inflight":[n per group]}   observable count (starts − completions) at the end
 -/
 import Frequenz.Model.Distributor
@@ -11,12 +12,16 @@ import Frequenz.Model.JsonUtil
 
 open Lean JsonUtil Distributor
 
-def optNatJ : Option Nat → Json
+def optIdJ : Option Req → Json
   | none => Json.null
-  | some n => Json.num (n : Int)
+  | some r => Json.num (r.id : Int)
+
+def optReqJ : Option Req → Json
+  | none => Json.null
+  | some r => Json.arr #[Json.num (r.id : Int), Json.num r.power, Json.bool r.adjust]
 
 def outJ : Out → Json
-  | .start g r => Json.arr #[Json.num (g : Int), Json.num (r : Int)]
+  | .start g r => Json.arr #[Json.num (g : Int), Json.num (r.id : Int), Json.num r.power, Json.bool r.adjust]
 
 def runCase (j : Json) : Except String Json := do
   let groupsJ ← getArr j "groups"
@@ -30,7 +35,8 @@ def runCase (j : Json) : Except String Json := do
     let kind ← getStr ev "e"
     match kind with
     | "arrive" =>
-      let e := Event.arrive (← getNat ev "g") (← getNat ev "r")
+      let e := Event.arrive (← getNat ev "g")
+        { id := (← getNat ev "r"), power := (← getInt ev "p"), adjust := (← getBool ev "adj") }
       let r := step s e
       s := r.1
       done := done ++ [e]
@@ -48,8 +54,8 @@ def runCase (j : Json) : Except String Json := do
       outs := outs ++ (r.2.map outJ).toArray
     | "snap" =>
       snaps := snaps.push (Json.mkObj [
-        ("processing", Json.arr (groups.map (fun g => optNatJ (s.processing g))).toArray),
-        ("pending", Json.arr (groups.map (fun g => optNatJ (s.pending g))).toArray)])
+        ("processing", Json.arr (groups.map (fun g => optIdJ (s.processing g))).toArray),
+        ("pending", Json.arr (groups.map (fun g => optReqJ (s.pending g))).toArray)])
     | _ => throw s!"unknown event {kind}"
   let t := trace done
   return Json.mkObj [("starts", Json.arr outs), ("snaps", Json.arr snaps),
